@@ -14,8 +14,8 @@ LEVEL = "other"
 ITEM_CAP = {"quick": 180, "thorough": 900}
 FUNCS = ["qlasskit.qcircuit.qcircuit.QCircuit.{append_circuit,__iadd__,__add__,repeat,copy,append,qft,iqft}", "qlasskit.qcircuit.qcircuitenhanced.QCircuitEnhanced.remove_identities"]
 BOUNDS = {
-    "quick": "append_circuit: 60 fixed-seed classical circuit pairs (B on 2-3 qubits appended onto A on 3-5 qubits) with the REMAP LIST SYMBOLIC (distinct in-range z3 Ints) and the basis state symbolic; 40 non-classical pairs with every injective remap enumerated (exact amplitudes); +/+=: 80 pairs; repeat: symbolic n in [0,4] on 40 circuits; copy: 40 circuits; remove_identities: all sequences of length <= 4 over 11 gate objects (repeated objects, distinct objects of one gate, permuted wires, barriers); qft/iqft: every injective qubit list of length <= 3 on 4 qubits",
-    "thorough": "3x the pair counts, remove_identities sequences of length <= 5, qft/iqft lists of length <= 4 on 5 qubits",
+    "quick": "append_circuit: 60 fixed-seed classical circuit pairs (B on 2-3 qubits appended onto A on 3-5 qubits) with the REMAP LIST SYMBOLIC (distinct in-range z3 Ints) and the basis state symbolic; 40 non-classical pairs with every injective remap enumerated (exact amplitudes); +/+=: 80 pairs; repeat: symbolic n in [0,4] on 40 circuits; copy: 40 circuits; remove_identities: all sequences of length <= 4 over 11 gate objects (repeated objects, distinct objects of one gate, permuted wires, barriers), all sequences of length <= 3 and all nested palindromes g h h g over 14 phase/non-self-inverse gate objects (exact amplitudes), palindromes g h k k h g over the classical pool; qft/iqft: every injective qubit list of length <= 3 on 4 qubits",
+    "thorough": "3x the pair counts, remove_identities sequences of length <= 5 (phase pool <= 4, palindromes of half-length 3), qft/iqft lists of length <= 4 on 5 qubits",
 }
 OUTSIDE = "circuits enumerated; symbolic remaps only for classical circuits; qft/iqft checked as inverse pair (not against the DFT matrix); n > 4 for repeat"
 ASSUMPTIONS = ["gate tables of engines A and D", "frame conditions (operands unchanged, result independent of operands) are checked by fingerprints and by mutating the result - concrete checks, not solver queries"]
@@ -113,6 +113,8 @@ def make_items(tier, seed):
     # the same applied-gate object repeated: judged on exact amplitudes
     for pre in range(14):
         items.append({"ob": "remove_identities", "pool": "phase", "first": pre, "len": 4 if tier == "thorough" else 3})
+    items.append({"ob": "remove_identities", "pool": "phase", "first": 1, "nested": 3 if tier == "thorough" else 2})
+    items.append({"ob": "remove_identities", "first": 1, "nested": 3})
     nqf, lf = (5, 4) if tier == "thorough" else (4, 3)
     for l in range(1, lf + 1):
         for wl in itertools.permutations(range(nqf), l):
@@ -399,9 +401,20 @@ def _check_item(spec):
             pool = [(g, w) for g, w, _ in applied]
         n = 0
         bad = []
-        for L in range(1, spec["len"] + 1):
-            for seq in itertools.product(range(len(pool)), repeat=L - 1):
-                seq = (spec["first"],) + seq
+        def sequences():
+            if spec.get("nested"):
+                # g h h g, g h k k h g: an inner pair cancels and exposes an outer pair (a circuit followed by its own
+                # gates in reverse, as an uncomputation is); the outer gates need not be their own inverse
+                for depth in range(2, spec["nested"] + 1):
+                    for half in itertools.product(range(len(pool)), repeat=depth):
+                        yield tuple(half) + tuple(reversed(half))
+                return
+            for L in range(1, spec["len"] + 1):
+                for seq in itertools.product(range(len(pool)), repeat=L - 1):
+                    yield (spec["first"],) + seq
+
+        for seq in sequences():
+            if True:
                 qc = QCircuitEnhanced(nq)
                 for i in seq:
                     qc.gates.append(applied[i])
